@@ -307,6 +307,9 @@ func (k *Kernel) tsEvents(evs []map[string]any) {
 			k.tsOnHandle(e)
 		case "served":
 			k.tsOnServed(e)
+		case "crash":
+			k.TSCrashes = append(k.TSCrashes, fmt.Sprintf("%v: %v", e["kind"], e["message"]))
+			k.Event("ts-crash", "%v", e["kind"])
 		}
 	}
 }
